@@ -216,7 +216,7 @@ class Env:
 
         class zq_Rec:
             def __getattr__(self, k):
-                if k.startswith("__") and k.endswith("__") and k not in ("__a__",):
+                if k.startswith("__") and k.endswith("__"):
                     raise AttributeError(k)
                 log.append(("get", k))
                 return lambda *a, **kw: ("called", k)
@@ -246,7 +246,7 @@ class Env:
             if m is None:
                 class M(types.ModuleType):
                     def __getattr__(self, k):
-                        if k.startswith("__"):
+                        if k.startswith("__") and k.endswith("__"):
                             raise AttributeError(k)
                         log.append(("from", k))
                         return ("imported", k)
@@ -285,7 +285,7 @@ BASE_KEYS = None
 def new_globals(mod):
     # compiler temporaries (_hy_...) are C12's subject; dunder entries belong to the module object
     return sorted(k for k in mod.__dict__ if not k.startswith(("zq_", "_hy_"))
-                  and k not in ("hy", "__builtins__", "__name__", "__doc__", "__package__", "__loader__", "__spec__"))
+                  and k not in ("hy", "__annotations__", "__builtins__", "__name__", "__doc__", "__package__", "__loader__", "__spec__"))
 
 
 def how(src):
@@ -329,7 +329,7 @@ AST_SITES = {
     "S_match_rest": ("(match {{}} {{#** {n}}} 0)", lambda t: first(t, ast.MatchMapping).rest),
     "S_match_class_kwd": ("(match zq_obj (zq_Rec :{n} 1) 0)", lambda t: first(t, ast.MatchClass).kwd_attrs[0]),
     "S_except_name": ("(try 1 (except [{n} ValueError] 2))", lambda t: strip_temp("exc")(first(t, ast.ExceptHandler).name)),
-    "S_setv_rename": ("(setv {n} (fn [] (return 1)))", lambda t: first(t, ast.FunctionDef).name),
+    "S_setv_rename": ("(setv {n} (defn zq_g [] 1))", lambda t: first(t, ast.FunctionDef).name),
     "S_let_bind": ("(let [{n} 1] 2)", lambda t: strip_temp("let")(first(t, ast.Assign).targets[0].id)),
     "S_local_macro": ("(defn zq_g [] (defmacro {n} [] 1))",
                       lambda t: first(t, ast.Assign, lambda n: isinstance(n.targets[0], ast.Name)).targets[0].id),
@@ -362,7 +362,8 @@ def observe_dynamic(env, sid, nm):
     if sid == "S_macro_lookup":
         log = []
         mod, _, err, msg = env.run("(%s)" % nm, execute=False, extra_macros=RecMacros(log))
-        return err and ("error", err, msg) or sorted(set(log))
+        # the lookup happens before a core macro of that name can object to the empty call
+        return sorted(set(log)) if log else ("error", err, msg)
     if sid == "S_kw_call":
         log = []
 
@@ -456,7 +457,7 @@ CONSTRUCTS = [
     ("for-target", "(for [{n} [1]] 0)", "globals"),
     ("with-target", "(with [{n} (open \"/dev/null\")] 0)", "globals"),
     ("function-name", "(defn {n} [] 1)", "globals+name"),
-    ("function-name-via-setv", "(setv {n} (fn [] (return 1)))", "globals+name"),
+    ("function-name-via-setv", "(setv {n} (defn zq_g [] 1))", "globals+name"),
     ("class-name", "(defclass {n} [])", "globals+name"),
     ("type-alias", "(deftype {n} int)", "globals"),
     ("global-decl", "(defn zq_g [] (global {n}) (setv {n} 5))\n(zq_g)", "globals:zq_g"),
@@ -515,7 +516,7 @@ PAIRS = [
     ("defmacro/macro-call", "(defmacro {a} [] 11)\n(setv zq_r ({b}))", 11),
     ("local-defmacro/macro-call", "(defn zq_g [] (defmacro {a} [] 11) ({b}))\n(setv zq_r (zq_g))", 11),
     ("require-as/macro-call", "(require zq_macmod [zq_m :as {a}])\n(setv zq_r ({b}))", 11),
-    ("setv-rename/variable", "(setv {a} (fn [] (return 11)))\n(setv zq_r ((do {b})))", 11),
+    ("setv-rename/variable", "(setv {a} (defn zq_g [] 11))\n(setv zq_r ((do {b})))", 11),
 ]
 
 
@@ -555,6 +556,10 @@ def run_constructs(chk, env, names):
                 if not ok:
                     chk.count("filtered:not-readable-as-dotted-part")
                     continue
+            dunder = m.startswith("__") and m.endswith("__")
+            if dunder and (obs.startswith("log:") or "import" in cid):
+                chk.count("filtered:dunder-name-on-recording-object")
+                continue
             if cid == "import-submodule" and not readable_dotted(hy, "zq_pkg." + nm, nm):
                 chk.count("filtered:not-readable-as-dotted-part")
                 continue
@@ -578,6 +583,8 @@ def run_constructs(chk, env, names):
                 if g != want:
                     bad(g, want)
                     continue
+                if cid == "variable-annotated" and list(mod.__dict__.get("__annotations__", {})) != [m]:
+                    bad(list(mod.__dict__.get("__annotations__", {})), [m])
                 if obs == "globals+name" and getattr(mod.__dict__[m], "__name__", None) != m:
                     bad(getattr(mod.__dict__[m], "__name__", None), m)
                 if obs == "globals+from" and [x[1] for x in log if x[0] == "from"] != [m]:
@@ -637,6 +644,10 @@ def run_pairs(chk, env, names, per_name):
                     if "param" in pid or "kwonly" in pid:
                         if a in ("/", "*"):
                             continue
+                    if pid.startswith("class-attr") and hy.mangle(a).startswith("__"):
+                        # Python's own class-private renaming and special methods
+                        chk.count("filtered:python-class-private-or-special-name")
+                        continue
                     if "macro-call" in pid and (hy.mangle(b) in core and not eq):
                         chk.count("filtered:reference-is-a-core-macro")
                         continue
@@ -688,7 +699,7 @@ def run(chk):
             coq_correspondence(chk, table)
         except Exception as e:
             chk.obligation("Coq neval evaluates on the generated table", False, str(e)[-1500:])
-    names = gen_names(chk, hy, 1500 if thorough else 260)
+    names = gen_names(chk, hy, 1500 if thorough else 150)
     for k, _ in names:
         chk.count("namekind:" + k)
     chk.rule = ("names = fixed list of hyphen/underscore/punctuation/Unicode/keyword names + seeded random names of 6 kinds, "
@@ -698,8 +709,8 @@ def run(chk):
                 "differs from the name (constructs), partner differs from the name or has another mangling (pairs)"
                 % (len(CONSTRUCTS), len(PAIRS)))
     if table:
-        sub = names if thorough else names[:150]
+        sub = names if thorough else names[:110]
         table_vs_ast(chk, env, table, sub)
     run_constructs(chk, env, names)
-    run_pairs(chk, env, names if thorough else names[:170], 2 if thorough else 1)
+    run_pairs(chk, env, names if thorough else names[:120], 2 if thorough else 1)
     chk.extra["names"] = len(names)
